@@ -16,8 +16,8 @@ UNKNOWN_EVENTS = ["nope", "go_", "GO", "gone", "s0", ""]
 def graph(draw, max_states=5, max_extra=8):
     n = draw(st.integers(1, max_states))
     edges = [(draw(st.integers(0, i - 1)), i) for i in range(1, n)]
-    extra = draw(st.lists(st.tuples(st.integers(0, n - 1), st.integers(0, n - 1)), max_size=max_extra))
-    edges += extra
+    extra = draw(st.lists(st.tuples(st.integers(0, n - 1), st.integers(0, n - 1), st.sampled_from([False, False, False, True])), max_size=max_extra))
+    edges += [(s, s if loop else d) for s, d, loop in extra]  # a quarter of the extra edges are self-transitions
     if not edges:
         edges.append((0, 0))
     edges = draw(st.permutations(edges))
@@ -52,6 +52,7 @@ def machine_spec(
     rets=RET_POOL,
     multi_provider=True,
     payload=True,
+    shared_names=False,
 ):
     """Draw a valid machine spec.  async_mode: none | all | mixed | one."""
     n, edges, finals = draw(graph(max_states=max_states, max_extra=max_extra))
@@ -133,6 +134,17 @@ def machine_spec(
                     if draw(st.integers(0, 9)) < 2:
                         att = draw(st.sampled_from(inline_styles))
                         add(f"s{i}_{grp}0", grp, ["state", i], att, provs_for(att))
+    if shared_names:
+        # the same method attached to two groups of one transition / state (before="f", after="f")
+        other = {"before": ["on", "after"], "on": ["after", "before"], "after": ["before", "on"], "enter": ["exit"], "exit": ["enter"]}
+        done = set()
+        for c in list(cbs):
+            if c["attach"] == "name" and c["group"] in other and c["name"] not in done and draw(st.integers(0, 9)) < 2:
+                done.add(c["name"])
+                grp = draw(st.sampled_from(other[c["group"]]))
+                for c2 in list(cbs):  # a name is resolved on every provider that has it
+                    if c2["name"] == c["name"] and c2["group"] == c["group"]:
+                        cbs.append(dict(c2, group=grp, sends={}))
     # guard definitions: every used name on 1..2 construction-time providers
     gdefs = []
     used = sorted({g for t in trans for g in t["cond"] + t["unless"]})
@@ -146,7 +158,13 @@ def machine_spec(
             gdefs.append({"name": name, "prov": prov, "kind": draw(st.sampled_from(list(guard_kinds))), "async": False, "multi": len(provs) > 1})
 
     # scripts
+    first_def = {}
     for c in cbs:
+        key = (c["name"], c["prov"])
+        if key in first_def:
+            c["ret"] = first_def[key]["ret"]
+            continue
+        first_def[key] = c
         c["ret"] = draw(st.sampled_from(rets))
         if sends and c["group"] != "validators" and draw(st.integers(0, 9)) < 3:
             script = {}
@@ -179,6 +197,9 @@ def machine_spec(
         for c in cbs:
             if c["async"]:
                 c["yields"] = draw(st.sampled_from([0, 0, 1, 2]))
+    for c in cbs:  # defs sharing one function agree on everything
+        f = first_def[(c["name"], c["prov"])]
+        c["async"], c["yields"] = f["async"], f["yields"]
     return {"states": states, "trans": trans, "cbs": cbs, "guards": gdefs, "events": events}
 
 
